@@ -33,6 +33,9 @@ def main() -> int:
         if hasattr(mod, "warm"):
             print("warming cache for", prop)
             mod.warm()
+    print("model checking the VF2++ loop model (MC_VF2, MC_VF2S)")
+    from . import vf2trace
+    vf2trace.model_check("quick")
     from . import selftest
     rc = selftest.main()
     print(f"setup done in {time.time()-t0:.1f}s")
